@@ -288,6 +288,10 @@ def run_property(prop, tier="quick", only=None, jobs=None, seed=0, verbose=True)
 
     # 4. report ------------------------------------------------------------------------
     os.makedirs(REPLAY_DIR, exist_ok=True)
+    if not only:
+        import glob
+        for old in glob.glob(os.path.join(REPLAY_DIR, prop, "*.json")):
+            os.remove(old)
     viol_lines = []
     per_label = {}
     suppressed = 0
